@@ -11,35 +11,59 @@ set_option linter.unusedVariables false
 namespace PCV
 namespace LinCode
 open Merkle
-variable {F : Type} [Field F] [DecidableEq F] {D : Type} [DecidableEq D]
+variable {F : Type} [Field F] [DecidableEq F] {D : Type} [DecidableEq D] {Pt : Type}
 
 /-- the value the honest prover claims for a labelled polynomial (`= Polynomial::evaluate`, see
 `C01.lincode_claimed_univariate`, `C01.lincode_claimed_multilinear`) -/
 def evalLP (pp : Params F D) (lp : LPoly F) (z : Point F) : F := claimed pp z lp.coeffs
 
-/-- every triple holds the commitment and the state `commit` makes for its polynomial, and the
-polynomial is in the domain of the scheme (linear row encoder) -/
-def GoodTrips (pp : Params F D) (ts : List ((LPoly F × State F D) × LComm D)) : Prop :=
-  ∀ t ∈ ts, HonestTriple pp t.1.1.coeffs t.2.comm t.1.2
+/-- every triple holds the commitment and the state `commit` makes for its polynomial, the
+polynomial is in the domain of the scheme (linear row encoder), and every point `ι z` of the point
+type `Pt` the history ranges over has the number of coordinates the width of its matrix asks for
+(`PointFits`; needed since fix D23: `open` answers for a point whose `tensor` vector `a` has another
+length than `n_cols`, `check` refuses it).  `ι = Point.uni` (the univariate scheme): the last part
+holds for every shape, `goodTrips_uni`; any `ι` (multilinear, or `ι = id`): it holds when the widths
+are powers of two, `goodTrips_of_pow2`. -/
+def GoodTrips (pp : Params F D) (ι : Pt → Point F) (ts : List ((LPoly F × State F D) × LComm D)) :
+    Prop :=
+  ∀ t ∈ ts, HonestTriple pp t.1.1.coeffs t.2.comm t.1.2 ∧
+    ∀ z, PointFits (ι z) (coeffMat pp.dims t.1.1.coeffs).m (coeffMat pp.dims t.1.1.coeffs).n
+
+theorem goodTrips_uni (pp : Params F D) (ts : List ((LPoly F × State F D) × LComm D))
+    (h : ∀ t ∈ ts, HonestTriple pp t.1.1.coeffs t.2.comm t.1.2) :
+    GoodTrips pp (Point.uni : F → Point F) ts :=
+  fun t ht => ⟨h t ht, fun z => pointFits_uni z _ _⟩
+
+theorem goodTrips_of_pow2 (pp : Params F D) (ι : Pt → Point F)
+    (ts : List ((LPoly F × State F D) × LComm D))
+    (h : ∀ t ∈ ts, HonestTriple pp t.1.1.coeffs t.2.comm t.1.2)
+    (hw : ∀ t ∈ ts, 2 ^ ceilLog2 (coeffMat pp.dims t.1.1.coeffs).m = (coeffMat pp.dims t.1.1.coeffs).m) :
+    GoodTrips pp ι ts :=
+  fun t ht => ⟨h t ht, fun z => pointFits_of_pow2 (ι z) _ _ (hw t ht)⟩
 
 /-- **The per-call hypothesis of the history theorem, for the linear-code schemes** (prover and
 verifier state are both just the sponge; the relation is equality). -/
-theorem openF_checkF_complete (ro : TRO F D) (tp : TParams F D) :
-    ∀ (ts : List ((LPoly F × State F D) × LComm D)) (z : Point F) (π : List (Proof F D))
+theorem openF_checkF_complete (ro : TRO F D) (tp : TParams F D) (ι : Pt → Point F) :
+    ∀ (ts : List ((LPoly F × State F D) × LComm D)) (z : Pt) (π : List (Proof F D))
       (sp sp' sv : TLog F D),
-      GoodTrips tp.pp ts → sp = sv → openF ro tp ts z sp = .ok (π, sp') →
-      ∃ sv', checkF ro tp (ts.map (·.2)) z (ts.map fun t => evalLP tp.pp t.1.1 z) π sv = .ok (true, sv') ∧
+      GoodTrips tp.pp ι ts → sp = sv → openF ro tp ts (ι z) sp = .ok (π, sp') →
+      ∃ sv', checkF ro tp (ts.map (·.2)) (ι z) (ts.map fun t => evalLP tp.pp t.1.1 (ι z)) π sv
+          = .ok (true, sv') ∧
         sp' = sv' := by
   intro ts z π sp sp' sv hg hR ho
   subst hR
   refine ⟨sp', ?_, rfl⟩
   unfold openF at ho
   unfold checkF
-  have := allT_lockstep ro tp z (ts.map fun t => (t.1.1.coeffs, t.2.comm, t.1.2))
+  have := allT_lockstep ro tp (ι z) (ts.map fun t => (t.1.1.coeffs, t.2.comm, t.1.2))
     (by
       intro t ht
       obtain ⟨t0, ht0, rfl⟩ := List.mem_map.1 ht
-      exact hg t0 ht0) sp π sp'
+      exact (hg t0 ht0).1)
+    (by
+      intro t ht
+      obtain ⟨t0, ht0, rfl⟩ := List.mem_map.1 ht
+      exact (hg t0 ht0).2 z) sp π sp'
     (by simpa [List.map_map, Function.comp_def] using ho)
   simpa [List.map_map, Function.comp_def, evalLP] using this
 
